@@ -193,6 +193,29 @@ def gen_deepconflict(rng, alphabet: List[str]) -> Dict[str, Any]:
             "allow_pre": False, "max_downgrade": rng.choice([None, None, 1, 2, 3]), "only_binary": None}
 
 
+def gen_triconflict(rng, alphabet: List[str]) -> Dict[str, Any]:
+    """Structured scenario: three (or four) inputs, each with a newer and an older release, constrain one shared dependency
+    in ways that cannot all hold for the newest releases - which of them is walked back depends on the order in which the
+    solver meets them, so the result must not depend on the order of the input lines."""
+    names = rng.sample(NAMES, rng.choice([4, 4, 5]))
+    z, tops = names[0], names[1:]
+    sp = lambda n: rng.choice(SPELL[n])
+    universe: Dict[str, List[Any]] = {z: [(sp(z), v, [], True, False) for v in ("1.0", "2.0")]}
+    hi, lo = [sp(z) + ">=2.0", sp(z) + ">1.0", sp(z) + "==2.0"], [sp(z) + "<2.0", sp(z) + "<=1.0", sp(z) + "==1.0"]
+    sides = [rng.random() < 0.5 for _ in tops]
+    if all(sides) or not any(sides):
+        sides[rng.randrange(len(sides))] ^= True
+    for p, side in zip(tops, sides):
+        newer = [rng.choice(hi if side else lo)]
+        older = rng.choice([[], [sp(z)], [rng.choice(lo if side else hi)]])
+        universe[p] = [(sp(p), "2.0", newer, True, False), (sp(p), "1.0", older, True, False)]
+        rng.shuffle(universe[p])
+    ins = [sp(p) for p in tops]
+    rng.shuffle(ins)
+    return {"mode": "triconflict", "universe": universe, "inputs": [("in0.txt", ins)], "constraints": None, "remove_constraints": False,
+            "allow_pre": False, "max_downgrade": rng.choice([None, None, 2, 3]), "only_binary": None}
+
+
 def gen_project_inputs(rng, alphabet: List[str]) -> Dict[str, Any]:
     """`req-compile ./proj_a ./proj_b reqs.txt`: some inputs are projects (solved, non-meta distributions taken from the
     universe) that may require one another; the rest are requirement files"""
@@ -241,6 +264,8 @@ def gen_case(rng, alphabet: List[str], mode: Optional[str] = None) -> Dict[str, 
         return gen_cascade(rng, alphabet)
     if mode == "deepconflict":
         return gen_deepconflict(rng, alphabet)
+    if mode == "triconflict":
+        return gen_triconflict(rng, alphabet)
     if mode == "srcextras":
         return gen_srcextras(rng, alphabet)
     if mode == "projects":
